@@ -40,6 +40,8 @@ import (
 
 // ---- operations --------------------------------------------------------------------
 
+// A message may contain the string vNaNMarker: it is submitted as a float64 NaN
+// (which encoding/json refuses) and printed for the model as its marker.
 type vop struct {
 	Kind string                 `json:"op"` // add, rem, process, get, fault
 	Spec string                 `json:"spec,omitempty"`
@@ -65,7 +67,7 @@ func (o *vop) coq() string {
 	case "rem":
 		return fmt.Sprintf("(RRem %s)", vString(o.Id))
 	case "process":
-		return fmt.Sprintf("(RProcess %s)", vJSON(o.Msg))
+		return fmt.Sprintf("(RProcess %s)", vJSON(vPoison(o.Msg)))
 	case "get":
 		return "RGet"
 	case "fault":
@@ -89,10 +91,18 @@ func vMmap(m map[string]vrec) string {
 	items := make([]string, 0, len(ids))
 	for _, id := range ids {
 		r := m[id]
-		items = append(items, fmt.Sprintf("(%s, mk_mrec %s %s %s)", vString(id), vString(r.Spec), vString(r.Node), vBindings(r.Bs)))
+		item := fmt.Sprintf("(%s, mk_mrec %s %s %s)", vString(id), vString(r.Spec), vString(r.Node), vBindings(r.Bs))
+		if len(ids) > vLargeCrew {
+			item = vTerm("(string * mrec)", item)
+		}
+		items = append(items, item)
 	}
 	return vList(items)
 }
+
+// vLargeCrew: above this size the entries of a crew (and the states of a
+// Process response) are printed once and referred to by name.
+const vLargeCrew = 16
 
 func vState(st *core.State) string {
 	if st == nil {
@@ -114,6 +124,7 @@ type vsvc struct {
 	isUp   bool
 	dir    string
 	bg     int // goroutines the service keeps for its lifetime (the store closer of NewService)
+	downs  int // how often the store went down
 }
 
 // vBase0: the goroutines of the test binary before any service existed.  A
@@ -227,7 +238,14 @@ func (v *vsvc) fault(up bool) {
 		v.s.store.db.NoSync = true
 		v.isUp = true
 	} else if !up && v.isUp {
-		v.s.store.db.Close()
+		// the store goes away the way the service itself closes it (Storage.Close), every other time through the
+		// database handle (a store that broke underneath)
+		v.downs++
+		if v.downs%2 == 1 {
+			v.s.store.Close(v.ctx)
+		} else {
+			v.s.store.db.Close()
+		}
 		v.isUp = false
 	}
 }
@@ -326,9 +344,14 @@ func (v *vsvc) do(o *vop) (term string, class string) {
 		return "POk", "rem-ok"
 	case "process":
 		msg, _ := vCanon(o.Msg)
+		msg = vPoison(msg)
 		walkeds, err := v.s.Process(v.ctx, msg, nil)
 		if walkeds == nil && err != nil {
 			return "PSpecErr", "process-specerr"
+		}
+		state := vState
+		if len(walkeds) > vLargeCrew {
+			state = func(st *core.State) string { return vTerm("(string * bindings)", vState(st)) }
 		}
 		mids := make([]string, 0, len(walkeds))
 		for mid := range walkeds {
@@ -341,7 +364,7 @@ func (v *vsvc) do(o *vop) (term string, class string) {
 			w := walkeds[mid]
 			to := "None"
 			if st := w.To(); st != nil {
-				to = "(Some " + vState(st) + ")"
+				to = "(Some " + state(st) + ")"
 				moved++
 			}
 			em := []string{}
@@ -350,7 +373,7 @@ func (v *vsvc) do(o *vop) (term string, class string) {
 					em = append(em, vJSON(x))
 				}
 			}
-			items = append(items, fmt.Sprintf("(%s, mk_wobs %s %s %s)", vString(mid), vState(w.From()), to, vList(em)))
+			items = append(items, fmt.Sprintf("(%s, mk_wobs %s %s %s)", vString(mid), state(w.From()), to, vList(em)))
 		}
 		class = "process-ok"
 		if err != nil {
@@ -387,6 +410,9 @@ func vGenAdd(g *vgen, ids []string) *vop {
 		o.Spec = "broken"
 	default:
 		o.Spec = ""
+	}
+	if g.chance(0.08) {
+		o.Spec = "nan" // harmless until a message carries "poison"
 	}
 	switch g.intn(6) {
 	case 0:
@@ -447,6 +473,14 @@ func vGenMsg(g *vgen, mg *vmsgGen, ids, present []string) interface{} {
 	}
 	if g.chance(0.3) {
 		m["wake"] = m["id"]
+	}
+	if g.chance(0.2) {
+		// only machines of specification "nan" look at "poison"; they keep its value, and a NaN cannot be written
+		if g.chance(0.75) {
+			m["poison"] = vNaNMarker
+		} else {
+			m["poison"] = 1.5
+		}
 	}
 	return m
 }
@@ -546,7 +580,50 @@ func vSeqCorpus() [][]*vop {
 			&vop{Kind: "process", Msg: map[string]interface{}{"id": "b", "fwd": []interface{}{}}}, get},
 		// nothing to write while the store is down: no error
 		{add("m0", "deaf"), down, &vop{Kind: "process", Msg: leaf("a", "m0")}, &vop{Kind: "process", Msg: nil}, up},
+		// one end state of a batch of three cannot be serialised although the store is up: all or nothing; a "poison" that
+		// can be serialised is kept; after that the nan machine only accepts what it has bound
+		{add("m0", "rec"), add("m1", "nan"), add("m2", "flip"), poisoned("a", vNaNMarker), get, poisoned("b", 1.5), poisoned("c", vNaNMarker),
+			poisoned("b", 1.5), &vop{Kind: "rem", Id: "m1"}, poisoned("d", vNaNMarker), get},
+		// the same with the store down as well, and addressed to the nan machine alone
+		{add("m0", "nan"), add("m1", "rec"), down, poisoned("a", vNaNMarker), up,
+			&vop{Kind: "process", Msg: map[string]interface{}{"id": "b", "to": "m0", "fwd": []interface{}{}, "poison": vNaNMarker}}, get,
+			&vop{Kind: "process", Msg: map[string]interface{}{"id": "c", "to": "m1", "fwd": []interface{}{}, "poison": vNaNMarker}}, get},
+		// volume: a batch much larger than anything a storage layer might cut into pieces; the one record that cannot be
+		// serialised sits at a random place of the batch (Go map order), so the failing broadcast is repeated
+		vVolume(200, 5),
+		vVolume(130, 4),
 	}
+}
+
+func poisoned(id string, poison interface{}) *vop {
+	return &vop{Kind: "process", Msg: map[string]interface{}{"id": id, "fwd": []interface{}{}, "poison": poison}}
+}
+
+// vVolume: n machines m000.. of specifications rec and flip and one of
+// specification nan; a broadcast whose "poison" is a NaN moves them all, and the
+// end state of the nan machine cannot be serialised: the write fails as a whole
+// (memory and store unchanged for every machine), repeats times; without the nan
+// machine the same broadcast is written for all.
+func vVolume(n, repeats int) []*vop {
+	ops := []*vop{}
+	nanAt := n / 3
+	for i := 0; i < n; i++ {
+		spec := "rec"
+		if i%3 == 1 {
+			spec = "flip"
+		}
+		ops = append(ops, &vop{Kind: "add", Id: fmt.Sprintf("m%03d", i), Spec: spec})
+		if i == nanAt {
+			ops = append(ops, &vop{Kind: "add", Id: "m-nan", Spec: "nan"})
+		}
+	}
+	// an ordinary broadcast first: the nan machine does not move, the others are written in one batch
+	ops = append(ops, &vop{Kind: "process", Msg: map[string]interface{}{"id": "a", "fwd": []interface{}{}}})
+	for k := 0; k < repeats; k++ {
+		ops = append(ops, poisoned(fmt.Sprintf("p%d", k), vNaNMarker))
+	}
+	ops = append(ops, &vop{Kind: "rem", Id: "m-nan"}, poisoned("q", vNaNMarker), &vop{Kind: "get"})
+	return ops
 }
 
 func quietLog() func() {
@@ -563,6 +640,25 @@ type vstepSample struct {
 	Resp  string          `json:"resp"`
 	Mem   map[string]vrec `json:"mem"`
 	Store map[string]vrec `json:"store"`
+	// large crews: the sample (and so a replay file) only says how memory and store differ; the Gallina term has both in full
+	Machines int      `json:"machines,omitempty"`
+	Differ   []string `json:"mem_differs_from_store_at,omitempty"`
+}
+
+func vDiffer(mem, sto map[string]vrec) []string {
+	acc := []string{}
+	for id, r := range mem {
+		if r2, have := sto[id]; !have || vCanonText(r) != vCanonText(r2) {
+			acc = append(acc, id)
+		}
+	}
+	for id := range sto {
+		if _, have := mem[id]; !have {
+			acc = append(acc, id)
+		}
+	}
+	sort.Strings(acc)
+	return acc
 }
 
 func runSeq(t *testing.T, out *vout, ops []*vop, kind string) {
@@ -577,7 +673,11 @@ func runSeq(t *testing.T, out *vout, ops []*vop, kind string) {
 		resp, class := v.do(o)
 		mem, sto := v.memory(), v.stored()
 		steps = append(steps, fmt.Sprintf("mk_sstep %s %s %s %s", o.coq(), resp, vMmap(mem), vMmap(sto)))
-		sample = append(sample, vstepSample{Op: o, Resp: class, Mem: mem, Store: sto})
+		if len(mem) > vLargeCrew || len(sto) > vLargeCrew {
+			sample = append(sample, vstepSample{Op: o, Resp: class, Machines: len(mem), Differ: vDiffer(mem, sto)})
+		} else {
+			sample = append(sample, vstepSample{Op: o, Resp: class, Mem: mem, Store: sto})
+		}
 		out.count("op:" + class)
 		key.WriteString(vCanonText(o))
 		if o.Kind == "fault" && !o.Up {
@@ -586,8 +686,14 @@ func runSeq(t *testing.T, out *vout, ops []*vop, kind string) {
 		if !v.isUp && (class == "add-err" || class == "rem-err" || class == "process-writefail") {
 			nontrivial = true
 		}
-		if class == "add-err" && v.isUp {
+		if (class == "add-err" || class == "process-writefail") && v.isUp {
 			nontrivial = true
+			if class == "process-writefail" {
+				out.count("batch-with-unserialisable-record")
+			}
+		}
+		if o.Kind == "process" && len(mem) > 64 {
+			out.count("process-on-crew-over-64:" + class)
 		}
 	}
 	out.count("sequence:" + kind)
